@@ -25,8 +25,11 @@ fn vx_witness_ideal_gas_energy() {
     let (mut n_ok, mut n_bad) = (0, 0);
     for t in [300.0, 350.0, 600.0] {
         let lam = joback.ln_lambda3(t);
-        for n in [[1.0, 0.5, 2.0], [1.0, 0.0, 2.0], [0.0, 1.0, 2.0], [1.0, 2.0, 0.0], [0.0, 0.0, 3.0], [0.0, 3.0, 0.0], [2.0, 0.0, 0.0]] {
-            let v = 1.0 * METER.powi::<P3>();
+        // (amounts, volume in m3); the last three: components PRESENT in a very dilute state - partial densities far below
+        // 1e-16 / A^3 (a trace component, a near-vacuum): they are present, so their N (ln Lambda^3 + ln rho - 1) counts
+        for (n, vol) in [([1.0, 0.5, 2.0], 1.0), ([1.0, 0.0, 2.0], 1.0), ([0.0, 1.0, 2.0], 1.0), ([1.0, 2.0, 0.0], 1.0), ([0.0, 0.0, 3.0], 1.0), ([0.0, 3.0, 0.0], 1.0), ([2.0, 0.0, 0.0], 1.0),
+            ([1.0e-5, 1.0, 2.0], 1.0e6), ([0.0, 0.0, 1.0e-5], 1.0e6), ([2.0e-6, 0.0, 3.0e-6], 1.0e7)] {
+            let v = vol * METER.powi::<P3>();
             let Ok(s) = State::new_nvt(&eos, t * KELVIN, v, &(arr1(&n) * MOL)) else { continue };
             let got = (s.helmholtz_energy(Contributions::IdealGas) / (RGAS * t * KELVIN * MOL)).into_value();
             let rho = s.partial_density.to_reduced();
@@ -34,7 +37,7 @@ fn vx_witness_ideal_gas_energy() {
             n_ok += 1;
             if !((got - want).abs() <= 1e-10 * want.abs().max(1.0)) {
                 n_bad += 1;
-                if n_bad <= 6 { println!("WITNESS ideal-gas Helmholtz energy (Joback, T={t} K, n={n:?} mol in 1 m3): A_ig/RT = {got} mol, sum_i N_i (ln Lambda_i^3 + ln rho_i - 1) over the present components = {want} mol"); }
+                if n_bad <= 6 { println!("WITNESS ideal-gas Helmholtz energy (Joback, T={t} K, n={n:?} mol in {vol} m3): A_ig/RT = {got} mol, sum_i N_i (ln Lambda_i^3 + ln rho_i - 1) over the present components = {want} mol"); }
             }
             // the sub-model of the present components at the same partial densities
             let present: Vec<usize> = (0..3).filter(|&i| n[i] > 0.0).collect();
